@@ -31,7 +31,12 @@ public:
     {
         // preallocate to avoid reallocations
         header_buffer_.need(64);
+#ifdef OVM_VERIF
+        // verification builds only: the 100 MB preallocation is a performance detail (the buffer grows on demand)
+        chunk_buffer_.need(64);
+#else
         chunk_buffer_.need(1024*1024*100);
+#endif
     }
     WriteResult write_file();
 private:
